@@ -103,6 +103,100 @@ def judge(check: core.Check, triples: list[dict], label: str) -> None:
         check.sample({"source": label, **o})
 
 
+# --------------------------------------------------------------------------- context slice (spec/SubstContexts.tla)
+_INT = {"k": "typed", "c": "int"}
+CTX_MAPS = {
+    **MAPS,
+    "T->list[S],S->int": {"T": {"k": "generic", "c": "list", "args": [{"k": "typevar", "n": "S"}]}, "S": _INT},
+    "T->S,S->T": {"T": {"k": "typevar", "n": "S"}, "S": {"k": "typevar", "n": "T"}},
+}
+
+
+def _tv_names(v) -> list[str]:
+    from pyanalyze.value import extract_typevars
+
+    return sorted({getattr(tv, "__name__", "other") for tv in extract_typevars(v)})
+
+
+def observe_ctx(arg):
+    """One context case (a = C[filler], map m, companions bs) or one equality pair through the real code."""
+    from pyanalyze.value import unite_values
+
+    tid, t = arg
+    tt = codec.value_to_term_wide
+    try:
+        if t["kind"] == "pair":
+            a, b = codec.term_to_value(t["a"]), codec.term_to_value(t["b"])
+            if tt(a) != t["a"] or tt(b) != t["b"]:
+                raise core.MachineryError(f"codec is not faithful on {t['a']} / {t['b']}")
+            return {"tid": tid, "kind": "pair", "a": t["a"], "b": t["b"], "eq_ab": a == b, "eq_ba": b == a,
+                    "hash_ab": hash(a) == hash(b)}
+
+        def A():  # every occurrence is decoded afresh (see observe)
+            return codec.term_to_value(t["a"])
+
+        tvm = {U.TYPEVARS[n]: codec.term_to_value(v) for n, v in CTX_MAPS[t["m"]].items()}
+        a, a2 = A(), A()
+        if tt(a) != t["a"]:
+            raise core.MachineryError(f"codec is not faithful on {t['a']}: decodes to {a}, which encodes to {tt(a)}")
+        s_a, s_a2 = A().substitute_typevars(tvm), A().substitute_typevars(tvm)
+        comm = []
+        for bt in t["bs"]:
+            def B():
+                return codec.term_to_value(bt)
+
+            s_uab = unite_values(A(), B()).substitute_typevars(tvm)
+            u_sab = unite_values(A().substitute_typevars(tvm), B().substitute_typevars(tvm))
+            comm.append({"s_uab": tt(s_uab), "u_sab": tt(u_sab), "eq": s_uab == u_sab})
+        return {
+            "tid": tid, "kind": "ctx", "a": t["a"], "m": t["m"], "bs": t["bs"], "s_a": tt(s_a),
+            "eq_id": s_a == a, "hash_id": hash(s_a) == hash(a), "eq_ss": s_a == s_a2, "hash_ss": hash(s_a) == hash(s_a2),
+            "eq_fresh": a == a2, "hash_fresh": hash(a) == hash(a2), "tv_a": _tv_names(a), "tv_s": _tv_names(s_a), "comm": comm,
+        }
+    except core.MachineryError:
+        raise
+    except Exception as exc:
+        return {"tid": tid, "kind": "raised", "case": t, "exc": f"{type(exc).__name__}: {exc}"}
+
+
+def _ctx_case(o: dict) -> dict:
+    if o["kind"] == "pair":
+        return {"kind": "pair", "a": o["a"], "b": o["b"]}
+    return {"kind": "ctx", "a": o["a"], "m": o["m"], "bs": o["bs"]}
+
+
+def adjudicate_ctx(observations: list[dict]) -> tuple[dict, dict]:
+    return core.adjudicate("SubstContextsTrace", "SubstContextsTrace.cfg", observations, batch=4000, parallel=8)
+
+
+def judge_ctx(check: core.Check, cases: list[dict], label: str) -> None:
+    obs = core.pmap(observe_ctx, list(enumerate(cases)), chunk=500)
+    good = [o for o in obs if o["kind"] != "raised"]
+    for o in obs:
+        if o["kind"] == "raised":
+            check.violation(core.canon(o["case"]), "PublicApiRaised", {"case": o["case"], "exc": o["exc"], "source": label})
+    verdicts, stats = adjudicate_ctx(good)
+    check.add_trace_stats(stats)
+    check.evals(len(obs))
+    by_tid = {o["tid"]: o for o in good}
+    for tid, vs in verdicts.items():
+        o = by_tid[tid]
+        for v in vs:
+            if v.startswith("viol:"):
+                check.violation(core.canon(_ctx_case(o)), v[5:], {"case": _ctx_case(o), "observed": o, "source": label})
+            elif v.startswith("dev:"):
+                check.violation(v[4:], v[4:], {"case": _ctx_case(o), "observed": o, "source": label})
+            else:
+                check.drift({"verdict": v, "case": o, "source": label})
+    for c in cases:
+        if c["kind"] == "ctx" and c["fs"] and c["h"] in ("T", "S"):
+            check.nontrivial(core.canon([c["fs"], c["h"], c["m"]]))
+        elif c["kind"] == "pair":
+            check.nontrivial(core.canon([c["fa"], c["fb"], c["ha"], c["hb"]]))
+    for o in good[:: max(1, len(good) // 2)][:2]:
+        check.sample({"source": label, **o})
+
+
 def run(check: core.Check) -> None:
     quick = check.tier == "quick"
     rnd = random.Random(check.seed)
